@@ -5,6 +5,7 @@ package main
 // (c) all schedules (preemption-bounded) of injections racing ordinary requests.
 
 import (
+	"crypto"
 	"bytes"
 	"crypto/tls"
 	"crypto/x509"
@@ -137,6 +138,7 @@ type c09Point struct {
 	Delivery string   `json:"delivery,omitempty"`
 	Threads  []string `json:"threads,omitempty"`
 	Choices  []int    `json:"choices,omitempty"`
+	Prelist  int      `json:"prelisted_keys_mask,omitempty"` // bit0 RSA CA key, bit1 Ed25519 CA key, bit2 foreign key, bit3 order reversed
 }
 
 func c09DeployByName(n string) c09Deploy {
@@ -271,6 +273,64 @@ func c09PassProbe(d c09Deploy, passName, delivery string) (violated bool, key, w
 		return true, "C09|second-injection-had-effect|unsealCA", fmt.Sprintf("status %d, %s -> %s", r3.Code, mid, c09SignerDigest(w)), ""
 	}
 	return false, "", "", fmt.Sprintf("pass|correct|%s|unsealed|%s", delivery, d.Name)
+}
+
+// (d) keymaster_public_keys_filename already lists some of the keys: every subset of
+// {own RSA CA key, own Ed25519 CA key, a foreign key} in both orders; after
+// unsealing every signer's key is published exactly once and nothing listed is lost.
+func c09PrelistProbe(d c09Deploy, mask int) (violated bool, key, what, class string) {
+	vfFixtures()
+	var pre []crypto.PublicKey
+	if mask&1 != 0 {
+		pre = append(pre, vfKeys.caRSA.Public())
+	}
+	if mask&2 != 0 {
+		pre = append(pre, vfKeys.caEd.Public())
+	}
+	if mask&4 != 0 {
+		pre = append(pre, vfKeys.foreignRSA.Public())
+	}
+	if mask&8 != 0 {
+		for i, j := 0, len(pre)-1; i < j; i, j = i+1, j-1 {
+			pre[i], pre[j] = pre[j], pre[i]
+		}
+	}
+	w := c09World(d, false)
+	defer w.Close()
+	base := len(w.state.KeymasterPublicKeys)
+	w.state.KeymasterPublicKeys = append(w.state.KeymasterPublicKeys, pre...)
+	resp := w.DoAdmin(c09Inject(w, c09Pass, "tls-verified"))
+	if w.state.Signer == nil {
+		return true, "C09|correct-passphrase-refused|secretInjectorHandler", fmt.Sprintf("status %d with pre-listed keys mask %d", resp.Code, mask), ""
+	}
+	if v, k, wh := c09Published(w, d); v {
+		return true, k + "|prelisted", fmt.Sprintf("%s (deployment %s, pre-listed keys mask %d)", wh, d.Name, mask), ""
+	}
+	count := func(pub crypto.PublicKey) int {
+		want, _ := getKeyFingerprint(pub)
+		n := 0
+		for _, k := range w.state.KeymasterPublicKeys[base:] {
+			if fp, _ := getKeyFingerprint(k); fp == want {
+				n++
+			}
+		}
+		return n
+	}
+	signers := []crypto.PublicKey{vfKeys.caRSA.Public()}
+	if d.Ed {
+		signers = append(signers, vfKeys.caEd.Public())
+	}
+	for _, sp := range signers {
+		if n := count(sp); n != 1 {
+			return true, "C09|signer-key-count|signerPublicKeyToKeymasterKeys", fmt.Sprintf("a signing key is listed %d times among the known keys after unsealing (deployment %s, pre-listed mask %d)", n, d.Name, mask), ""
+		}
+	}
+	for _, pk := range pre {
+		if count(pk) < 1 {
+			return true, "C09|prelisted-key-lost|signerPublicKeyToKeymasterKeys", fmt.Sprintf("a pre-listed key disappeared (deployment %s, mask %d)", d.Name, mask), ""
+		}
+	}
+	return false, "", "", fmt.Sprintf("prelist|%s|n=%d", d.Name, len(pre))
 }
 
 // c09Published: after unsealing, the published CA and JWKS keys include the keys that sign.
@@ -486,7 +546,7 @@ func init() {
 	vfRegister(&vfeng.Check{
 		ID:    "C09",
 		Level: "model_checking",
-		Rule:  "(a) every service-mux route of the current source and the admin-port handlers x {GET,POST} x {no credential, basic-auth, session cookie and client certificate minted by a sibling holding the same CA key} x {with/without the CA key listed as trusted public key} on a sealed instance: nothing signed leaves, readiness says not ready, signer state unchanged; (b) ~120 passphrase variants (correct, empty, every proper prefix, every single-character deletion / substitution x3 / transposition, suffix, case-folded, NUL/newline, 1 MiB) x {no TLS, TLS without verified chain, verified chain} x {RSA, RSA+Ed25519, Ed25519 sealed with another passphrase}: only correct+verified unseals, a failed attempt changes no signer-derived field and a later correct attempt works, a second injection has no effect, the published SSH/X.509/JWKS keys include the keys that sign; (c) stateless model checking under vsched: all schedules (preemption bound 2, thorough 3) of injection threads racing ordinary requests with yield points inside unsealCA/loadSignersFromPemData: exactly one acknowledged transition and readiness signal, no duplicate CA material, no deadlock, ordinary responses complete, vector-clock race analysis of the signer fields",
+		Rule:  "(a) every service-mux route of the current source and the admin-port handlers x {GET,POST} x {no credential, basic-auth, session cookie and client certificate minted by a sibling holding the same CA key} x {with/without the CA key listed as trusted public key} on a sealed instance: nothing signed leaves, readiness says not ready, signer state unchanged; (b) ~120 passphrase variants (correct, empty, every proper prefix, every single-character deletion / substitution x3 / transposition, suffix, case-folded, NUL/newline, 1 MiB) x {no TLS, TLS without verified chain, verified chain} x {RSA, RSA+Ed25519, Ed25519 sealed with another passphrase}: only correct+verified unseals, a failed attempt changes no signer-derived field and a later correct attempt works, a second injection has no effect, the published SSH/X.509/JWKS keys include the keys that sign; (d) every subset and order of {own RSA CA key, own Ed25519 CA key, foreign key} already listed as known public keys x {RSA, RSA+Ed25519}: after unsealing every signing key is published exactly once and verifies issued material; (c) stateless model checking under vsched: all schedules (preemption bound 2, thorough 3) of injection threads racing ordinary requests with yield points inside unsealCA/loadSignersFromPemData: exactly one acknowledged transition and readiness signal, no duplicate CA material, no deadlock, ordinary responses complete, vector-clock race analysis of the signer fields",
 		Assumptions: []string{"a handler panic on a sealed instance is fail-closed and recorded, not a violation of this property", "OpenPGP symmetric encryption (x/crypto/openpgp) is trusted"},
 		Shards: func(tier string) int { return 16 },
 		Run: func(c *vfeng.Ctx) {
@@ -551,6 +611,23 @@ func init() {
 					}
 				}
 			}
+			// (d)
+			for _, d := range c09Deploys()[:2] {
+				for mask := 0; mask < 16; mask++ {
+					i++
+					if !c.Mine(i) {
+						continue
+					}
+					p := c09Point{Part: "prelist", Deploy: d.Name, Prelist: mask}
+					v, key, what, class := c09PrelistProbe(d, mask)
+					c.Eval(1)
+					if v {
+						c.Violate(key, what, p)
+					} else {
+						c.Class(class, p)
+					}
+				}
+			}
 			// (c)
 			bound := 2
 			if c.Thorough() {
@@ -603,6 +680,9 @@ func init() {
 				return v, key + " :: " + what + class
 			case "pass":
 				v, key, what, class := c09PassProbe(c09DeployByName(p.Deploy), p.Pass, p.Delivery)
+				return v, key + " :: " + what + class
+			case "prelist":
+				v, key, what, class := c09PrelistProbe(c09DeployByName(p.Deploy), p.Prelist)
 				return v, key + " :: " + what + class
 			default:
 				ex, outs, w := c09RunSchedule(p.Threads, p.Choices)
